@@ -1698,10 +1698,22 @@ func (target *BuildTarget) HasSource(source string) bool {
 	return false
 }
 
-// HasAbsoluteSource returns true if this target has the given file as a source (or data).
+// HasAbsoluteSource returns true if this target has the given file as a source (or data, or a tool).
 // The input source includes the target's package name.
 func (target *BuildTarget) HasAbsoluteSource(source string) bool {
-	return target.HasSource(strings.TrimPrefix(source, target.Label.PackageName+"/"))
+	source = strings.TrimPrefix(source, target.Label.PackageName+"/")
+	if target.HasSource(source) {
+		return true
+	}
+	// Tools that are files in the repo are inputs to the target just as much as its sources are.
+	for _, tool := range target.AllTools() {
+		if file, ok := tool.(FileLabel); ok {
+			if s := file.String(); s == source || strings.HasPrefix(source, s+"/") {
+				return true
+			}
+		}
+	}
+	return false
 }
 
 // AllData returns all the runtime data of this rule.
